@@ -12,6 +12,11 @@ binding: record phase = real ECU + DBHandler (temp sqlite) against an in-process
          Trace_DbReplay (TLC: contract verdict + design-layer explanation); spec->code: every
          TLC behaviour up to length 2/3 plus TLC-simulated longer ones (with other runs and
          selectors) are concretised and executed.
+storage: the same histories recorded while somebody else has the database open (viewer with / without an
+         open read transaction, a second DBHandler, the recorder itself still connected or killed): the
+         recording then sits (partly) in the write-ahead log when the virtual ECU is started.  Same traces,
+         same verdict (Y1/Y2 of the contract); a replay that serves the main file alone is the negative
+         control of the family.
 """
 
 from __future__ import annotations
@@ -212,6 +217,79 @@ def model_case(cid: str, seed: int, k: int, tier: str) -> dict[str, Any]:
     return case
 
 
+# --------------------------------------------------------------------------- storage family
+# "recorded into the database" does not say WHERE in the database files the rows sit.  gallia's databases are in
+# WAL mode; SQLite folds the write-ahead log into the main file when the last connection closes.  Every recording
+# above is made and closed with nobody else connected, i.e. is fully checkpointed.  Here: who else has the
+# database open (L.STORAGE_KINDS) x when it was opened relative to the runs x when it is closed.
+def storage_combos() -> list[dict[str, str]]:
+    out = []
+    for kind in L.HOLDERS:
+        for at in (["start"] if kind == "handler" else []) + ["before-target", "mid", "after-target", "end"]:
+            for release in ("end", "mid-replay"):
+                out.append({"kind": kind, "at": at, "release": release})
+    for _ in range(2):
+        out += [{"kind": "recorder-open", "at": "before-target", "release": r} for r in ("end", "mid-replay")]
+        out += [{"kind": "recorder-killed", "at": "before-target", "release": "end"}] * 2
+    return out
+
+
+def storage_cases(seed: int, tier: str) -> list[dict[str, Any]]:
+    combos = storage_combos()
+    n = 2 * len(combos) if tier == "quick" else 12 * len(combos)
+    cases = []
+    for j in range(n):
+        sto = combos[j % len(combos)]
+        # alternate databases with other runs (selection by name / properties) and single-run databases
+        k = 5001 + 3 * j + (0 if (j // len(combos) + j) % 2 == 0 else 1)
+        case = model_case(f"st{j}", seed, k, tier)
+        case["storage"] = dict(sto)
+        if sto["kind"].startswith("recorder"):
+            case["target"].pop("tp", None)  # "every exchange is committed" is awaited by counting the rows
+        lay = case.get("layout")
+        if lay and sto["kind"] == "recorder-killed":
+            # whoever records into the database after the killed recorder folds its log into the main file
+            lay["before"], lay["after"] = lay["before"] + lay["after"], []
+        cases.append(case)
+    # scripted witnesses: repeated identical request with different answers, a silent row, a state change
+    ex = [("22f190", "62f19001"), ("1003", "5003003201f4"), ("22f190", "62f19002"), ("3e80", None),
+          ("22f190", "62f19003"), ("1101", "5101"), ("22f190", "62f19004")]
+    other = {"url": "c12inproc://other0", "ecu_name": "other0", "props": OTHER_PROPS,
+             "steps": [{"pdu": a} for a, _ in ex[:3]],
+             "peer": {"kind": "script", "script": ["62f190aa", "5003003201f4", "62f190bb"]}}
+    for j, sto in enumerate(combos):
+        if sto["release"] != "end":
+            continue
+        cases.append({"id": f"w-storage-{sto['kind']}-{sto['at']}-{j}", "second_pass": False, "storage": dict(sto),
+                      "target": {"url": "c12inproc://target", "ecu_name": "tgt", "props": TARGET_PROPS,
+                                 "steps": [{"pdu": a} for a, _ in ex],
+                                 "peer": {"kind": "script", "script": [b for _, b in ex]}},
+                      "layout": {"before": [other], "after": [] if sto["kind"] == "recorder-killed" else [other],
+                                 "selectors": [{"ecu": "tgt", "props": None}, {"ecu": None, "props": {"variant": 1}},
+                                               {"ecu": None, "props": None}]}})
+    return cases
+
+
+def storage_report(rep: Report, traces: list[dict[str, Any]]) -> None:
+    """Evidence: per kind, how many replays were started while the recorded run was NOT (completely) in the main
+    database file.  Not a verdict and not a demand on gallia: a recorder that checkpoints eagerly makes these
+    counts 0 and the family degenerate to the ordinary one (the negative control in the binding self-test is
+    then not applicable and says so)."""
+    by: dict[str, dict[str, int]] = {}
+    for t in traces:
+        st = t.get("info", {}).get("storage")
+        if not st:
+            continue
+        d = by.setdefault(st["kind"], {"replays": 0, "other_party_in_effect": 0, "recorded_run_outside_main_file": 0})
+        d["replays"] += 1
+        d["other_party_in_effect"] += bool(st["in_effect"])
+        d["recorded_run_outside_main_file"] += st["target_rows_outside_main_file"] > 0
+    rep.extra["storage_family"] = by
+    missing = [k for k in L.STORAGE_KINDS if by.get(k, {}).get("replays", 0) == 0]
+    if missing:
+        raise Machinery(f"storage family: no replay was executed for {missing} ({by})")
+
+
 # --------------------------------------------------------------------------- TLC validation
 def validate(traces: list[dict[str, Any]]) -> tuple[dict[str, list[Any]], list[Any]]:
     """Trace_DbReplay over the batch: id -> [label, class, index, explained_by, drift]."""
@@ -312,7 +390,10 @@ def run(tier: str, seed: int) -> Report:
                 "and a fresh real DBUDSServer asked the recorded requests through UDSServerTransport.handle_request "
                 "(isolated database without selection; populated database with each selector). distinct = distinct "
                 "(rows of the database, selector); non-trivial = at least 2 exchanges and the recorded run contains "
-                "a state change, a row without reply, or a repeated identical request")
+                "a state change, a row without reply, or a repeated identical request. storage family: the same, "
+                "recorded while another connection has the database open (viewer, viewer with a read transaction, "
+                "second DBHandler; opened before / during / after the recorded run, closed after or during the "
+                "replay) or with the recorder itself still connected / killed without disconnecting")
     rep.assumptions = [
         "recorded ECU = RandomUDSServer(seed) behind a real UDSServerTransport (security seeds drawn from a seeded "
         "generator instead of OS entropy), or a scripted ECU answering what a TLC behaviour prescribes; lost replies "
@@ -324,6 +405,10 @@ def run(tier: str, seed: int) -> Report:
         "replay requests arrive without bus idle (UDSServerTransport's 10 s inactivity reset is not triggered)",
         "another run with the SAME ECU name and properties cannot be separated by the selection: unspecified",
         "a second pass over the sequence on the same server instance is unspecified (design-layer comparison only)",
+        "'recorded into the database' = committed, i.e. what an ordinary SQLite reader of the database sees, "
+        "wherever the bytes sit (main file or write-ahead log); the harness reads a copy of the files so that its "
+        "own observation does not checkpoint the log; other connections only hold the database open (no writes, "
+        "no exclusive locks)",
     ]
     pool = L.make_pool()  # fork the workers before any thread exists
     try:
@@ -419,6 +504,8 @@ def _run(rep: Report, tier: str, seed: int, pool: Any) -> Report:
             "url": "c12inproc://target", "ecu_name": "tgt", "props": TARGET_PROPS,
             "steps": [{"pdu": "221234"}, {"pdu": "22f190"}],
             "peer": {"kind": "script", "script": [bad, "62f19041"]}}})
+    # the recorded histories again, with the recording (partly) in the write-ahead log at replay time
+    cases += storage_cases(seed, tier)
     # ---- 4. execute on the real objects
     traces = L.run_cases(cases, pool)
     skipped = [t for t in traces if "skip" in t]
@@ -465,10 +552,13 @@ def _run(rep: Report, tier: str, seed: int, pool: Any) -> Report:
             if expl == "unexplained":  # not one of the modelled deviations: say where it shows
                 sig["selector"] = sel_kind(t["sel"])
                 sig["raised"] = any(o["rep"] == L.RAISED for o in t["obs"])
+                if t.get("info", {}).get("storage"):  # ... and with what else connected to the database
+                    sig["storage"] = t["info"]["storage"]["kind"]
             key = json.dumps([label, sig], sort_keys=True)
             seen_sig[key] = seen_sig.get(key, 0) + 1
             if seen_sig[key] <= 3:
                 rep.violate(label, sig, {"first_bad_exchange": idx, "selector_kind": sel_kind(t["sel"]), "replay": replay_summary(t),
+                                         "storage": t.get("info", {}).get("storage"),
                                          "case": next((c for c in cases if c["id"] == str(t["id"]).split("/")[0]), None),
                                          "trace": {k: t[k] for k in ("id", "oob", "sel", "rows", "tgt", "obs", "obs2", "base")}})
         elif cls != "void":
@@ -498,6 +588,7 @@ def _run(rep: Report, tier: str, seed: int, pool: Any) -> Report:
     rep.extra["spec_to_code_compared"] = len(expect)
     rep.extra["spec_to_code_drift"] = ndrift
     rep.extra["kinds"] = {k: sum(1 for t in traces if t["kind"] == k) for k in ("iso", "pop")}
+    storage_report(rep, traces)
     for t in traces[:1] + [t for t in traces if t["kind"] == "pop"][:2] + traces[-2:]:
         rep.sample(replay_summary(t) | {"verdict": verdicts[str(t["id"])]})
     rep.exhaustive = True
@@ -526,10 +617,25 @@ def selftest(rep: Report, traces: list[dict[str, Any]], verdicts: dict[str, list
     # a mutant of the harness's own replay loop: a server that forgets its cursor between requests
     mut = L.run_case({"id": "mut", "second_pass": False, "mutant": "forget-cursor", "target": script_run(
         [[["Other", 1], ["pos", 1]], [["Other", 1], ["pos", 2]]], 0, "c12inproc://target", "tgt", TARGET_PROPS)})
-    v, _ = validate([c1, c2, c3, c4] + mut)
-    got = {i: v[i][0] for i in ("c1", "c2", "c3", "c4", "mut")}
-    if any(x == "ok" for x in got.values()) or not got["c2"].startswith("Y0") or not got["c4"].startswith("Y2"):
+    # a mutant of the harness's own replay: a virtual ECU that serves the main database file alone while the
+    # recorded run is still in the write-ahead log (another DBHandler has the database open)
+    wal = L.run_case({"id": "mutwal", "second_pass": False, "mutant": "main-file-only",
+                      "storage": {"kind": "handler", "at": "before-target", "release": "end"},
+                      "target": script_run([[["Other", 1], ["pos", 1]], [["Other", 1], ["pos", 2]]], 0,
+                                           "c12inproc://target", "tgt", TARGET_PROPS),
+                      "layout": {"before": [script_run([[["Other", 1], ["pos", 9]]], 0, "c12inproc://other1", "other",
+                                                       OTHER_PROPS)],
+                                 "after": [], "selectors": [{"ecu": "tgt", "props": None}]}})
+    # (applicable where the recorded run really is outside the main file -- the harness measures that, see
+    # L.storage_state; a gallia that checkpoints eagerly leaves nothing for this control to show)
+    wal = [t for t in wal if "skip" not in t and t["info"]["storage"]["target_rows_outside_main_file"] > 0]
+    v, _ = validate([c1, c2, c3, c4] + mut + wal)
+    got = {i: v[i][0] for i in ["c1", "c2", "c3", "c4", "mut"] + [t["id"] for t in wal]}
+    if any(x == "ok" for x in got.values()) or not got["c2"].startswith("Y0") or not got["c4"].startswith("Y2") \
+            or not all(got[t["id"]].startswith("Y1") for t in wal):
         raise Machinery(f"binding self-test: corrupted replays accepted or mislabelled: {got}")
+    if not wal:
+        got["mutwal"] = "n/a: the recorded run was in the main database file"
     rep.extra["binding_selftest"] = got
 
 
